@@ -90,10 +90,10 @@ def points(tier, seed):
     for m in mags:
         pts += [(m, 0.0, 0.0), (0.0, -m, 0.0), (0.0, 0.0, m), (m, -m, 0.0), (0.0, m, -m)]
     pts += [(-4052051.7643, 4212836.2017, -2545106.0245), (5e7, -1.0, 1e-3)]
-    if tier == 'thorough':
+    if True:
         ph = (seed * 0.6180339887 + 0.37) % 1.0
-        for i in range(40):
-            a1, a2 = 2 * math.pi * ((i + ph) / 40.0), math.pi * (((i * 7 + ph) % 40) / 40.0 - 0.5)
+        for i in range(40 if tier == 'quick' else 160):
+            a1, a2 = 2 * math.pi * ((i + ph) / 40.0), math.pi * (((i * 7 + ph) % 40) / 40.0 - 0.5) * (1.0 if i < 40 else 0.97 ** (i // 40))
             r = [6.37e6, 2e7, 4e7][i % 3]
             pts.append((r * math.cos(a2) * math.cos(a1), r * math.cos(a2) * math.sin(a1), r * math.sin(a2)))
     seen, out = set(), []
